@@ -189,6 +189,11 @@ def value_contract(fn, regex_name, kind, units):
     )
 
 
+def native_witness(ctx):
+    """concrete search on the real code, usable when the contracts no longer apply to a changed source (vc/check.py)"""
+    return core.run_native(REPLAY, {'search': True})
+
+
 def build(ctx):
     src = core.read_repo(PARSE)
     tree = ast.parse(src)
